@@ -72,6 +72,12 @@ func verif_assert(b bool) {
 
 func verif_assume(b bool) {}
 
+// verif_sameslice(a, b): a and b are the same window of the same backing array (contracts only; the executable
+// body cannot tell two empty windows apart).
+func verif_sameslice[T any](a, b []T) bool {
+	return len(a) == len(b) && (len(a) == 0 || &a[0] == &b[0])
+}
+
 // verif_rangeidx stands for the number of completed iterations of the enclosing range loop (contracts only).
 func verif_rangeidx() int { return 0 }
 
